@@ -495,6 +495,15 @@ def check_f(ctx, facts, sm, tier, seed):
                 ctx.violation('C19.f', 'shared-module-list:%s' % name.split(' ')[0], 'the caller\'s list of already emitted modules is not filled (an empty list is dropped): a second run sharing it defines the same modules again',
                               where, witness=dict(design=name, modules_emitted=sorted(md)[:6], list_after_the_run=list(shared_list)))
                 continue
+            # ... and it belongs to the caller: a later request to the same generator that does not pass it must leave it alone
+            shared_list.append('ModuleOfAnEarlierFile')           # the caller's list also carries what other runs emitted
+            before = [str(x) for x in shared_list]
+            D.el.call(D.el.getattr_(g1, 'getVerilogForHierarchy'), [], {}, {})
+            if [str(x) for x in shared_list] != before:
+                ctx.violation('C19.f', 'caller-list-touched:%s' % name.split(' ')[0], 'a request without a module list empties / refills the list an earlier caller supplied: a later run sharing that list '
+                              'defines the shared modules again', where, witness=dict(design=name, history='g.getVerilogForHierarchy(createdStructures=L); g.getVerilogForHierarchy()',
+                                                                                    list_before=before[:5], list_after=[str(x) for x in shared_list][:5]))
+                continue
             g2 = generator(D)
             te = D.el.call(D.el.getattr_(g2, 'getVerilogForHierarchy'), [], dict(createdStructures=shared_list), {})
             again = [k for k in split_modules(te) if k in md and k in [str(x) for x in shared_list]]
@@ -537,6 +546,33 @@ def check_f(ctx, facts, sm, tier, seed):
             skipped.append('%s: construction / generation refuses' % name)
         except (ElabError, NetError, PyExc, GenError) as e:
             skipped.append('%s: %s' % (name, str(e)[:70]))
+    # a request that fails part-way must leave nothing behind in the generator: the next request describes its own circuit only
+    try:
+        D = Design(f2)
+        a = D.wire('a', 4)
+        D.make('DelayLine', 'dl', a, None, None, D.wire('qd', 4), 2)
+        D.make('RotateLeftConstant', 'rot', a, 1, D.wire('qr', 4))          # not expressible: the hierarchy request is refused here
+        D.make('Counter', 'cnt', D.wire('rst'), D.wire('inc'), D.wire('qc', 4))
+        sub = D.sys.attrs['children']['dl']
+        fresh = split_modules(D.el.call(D.el.getattr_(generator(D), 'getVerilogForHierarchy'), [sub], {}, {}))
+        g = generator(D)
+        failed = False
+        try:
+            D.el.call(D.el.getattr_(g, 'getVerilogForHierarchy'), [], {}, {})
+        except (ElabRaise, PyExc):
+            failed = True
+        if failed:
+            after = split_modules(D.el.call(D.el.getattr_(g, 'getVerilogForHierarchy'), [sub], {}, {}))
+            if after != fresh:
+                ctx.violation('C19.f', 'after-failed-request', 'after a request that was refused part-way, the next request to the same generator carries left-over modules of the failed one', where,
+                              witness=dict(history='g.getVerilogForHierarchy() raises at a block that cannot be expressed; g.getVerilogForHierarchy(sub)',
+                                           extra_modules=sorted(set(after) - set(fresh))[:5], missing_modules=sorted(set(fresh) - set(after))[:5]))
+            else:
+                ctx.ok('C19.f', 'after-failed-request', 'a refused request leaves nothing behind: the next request to the same generator equals the request to a fresh one', grade='bounded')
+        else:
+            ctx.note('C19.f after-failed-request: the probe design was not refused; history not exercised')
+    except (ElabError, NetError, GenError, ElabRaise, PyExc) as e:
+        ctx.note('C19.f after-failed-request not evaluable: %s' % str(e)[:100])
     ctx.analysed['c19f_skipped'] = skipped[:12]
     ctx.floor('C19.f', 'designs whose generation requests were replayed', n_ok + sum(1 for v in ctx.violations if v['rule'] == 'C19.f'), 15)
     if not any(v['rule'] == 'C19.f' for v in ctx.violations):
